@@ -76,7 +76,7 @@ func init() { ev.RegisterReplay(chkIndex, replay) }
 // in particular nothing may be allocated for an index that no array of the document can have.
 func TestArrayIndexSweep(t *testing.T) {
 	idx := []string{"-2", "-1", "0", "1", "2", "3", "-", "00", "+1", "1000000", "1099511627776", "17592186044416", "4611686018427387904", "9223372036854775807", "9223372036854775808", "18446744073709551616"}
-	ev.Rule(chkIndex, fmt.Sprintf("deterministic sweep: 6 RFC 6902 operations x 3 arrays (top-level, nested in an array, nested in an object) x %d index spellings from -2 to beyond 2^64 (incl. 10^6, 2^40, 2^44, 2^62, 2^63-1) x {path, from} x 2 documents; oracle: a document or an error - never a panic, a hang or a fatal crash (in-flight journal); non-trivial = every case", len(idx)))
+	ev.Rule(chkIndex, fmt.Sprintf("deterministic sweep: 6 RFC 6902 operations x 3 arrays (top-level, nested in an array, nested in an object) x %d index spellings from -2 to beyond 2^64 (incl. 10^6, 2^40, 2^44, 2^62, 2^63-1) x {path, from} x 2 documents, plus move / copy whose source is an earlier element of the array the target goes through (the positions shift when the source is taken out); oracle: a document or an error - never a panic, a hang or a fatal crash (in-flight journal); non-trivial = every case", len(idx)))
 	item := 0
 	for di, doc := range []interface{}{smallDocs[1], smallDocs[2]} {
 		for _, op := range []string{"add", "remove", "replace", "move", "copy", "test"} {
@@ -104,6 +104,27 @@ func TestArrayIndexSweep(t *testing.T) {
 							ev.Fail(t, chkIndex, kind, sigOf(kind, msg), c, "%s", msg)
 						}
 					}
+				}
+			}
+		}
+	}
+	// a 'move' whose source is an earlier element of the array that its target goes through: the positions shift when
+	// the source is taken out, so the target addresses another element than it does in the document as it stands
+	shiftDoc := map[string]interface{}{"a": []interface{}{float64(0), float64(5), []interface{}{float64(1)}}, "b": []interface{}{float64(0), map[string]interface{}{}, []interface{}{}}, "c": []interface{}{[]interface{}{"x"}, []interface{}{"y"}}}
+	for _, op := range []string{"move", "copy"} {
+		for _, pair := range [][2]string{{"/a/0", "/a/1/"}, {"/b/0", "/b/1/"}, {"/c/0", "/c/0/"}, {"/a/00", "/a/1/"}, {"/a/1", "/a/1/"}} {
+			for _, i := range idx {
+				item++
+				if !ev.Mine(item) {
+					continue
+				}
+				o := map[string]interface{}{"op": op, "from": pair[0], "path": pair[1] + i}
+				c := &Case{Enabled: wire.AllPatches, Doc: deep(shiftDoc), Patches: []interface{}{map[string]interface{}{"action": "ietf-json-patch", "patches": []interface{}{o}}}}
+				kind, msg, accepted := evalCase(c)
+				ev.Record(chkIndex, true, ev.Hash(c), "op:"+op, "role:shifted-target", "index:"+i, fmt.Sprintf("accepted:%v", accepted))
+				ev.SampleFn(chkIndex, func() interface{} { return map[string]interface{}{"operation": o, "accepted": accepted} })
+				if kind != "" {
+					ev.Fail(t, chkIndex, kind, sigOf(kind, msg), c, "%s", msg)
 				}
 			}
 		}
